@@ -87,6 +87,11 @@ class Module:
         self.classes: dict[str, ClassInfo] = {}
         self.funcs: dict[str, FuncInfo] = {}  # all functions by qual
         self.globals: dict[str, ast.expr] = {}
+
+    def finish(self, package_defs: dict) -> None:
+        """look through private helpers that do not exist in the pinned tree (inline.py), then index"""
+        from .inline import inline_new_helpers
+        self.tree = canonicalise(inline_new_helpers(self.tree, self.name, package_defs))
         self._index()
 
     def _index(self) -> None:
@@ -189,6 +194,13 @@ class Source:
                 self.parse_errors.append(f"{p}: {e}")
         if self.parse_errors:
             raise AnalysisError("syntax errors: " + "; ".join(self.parse_errors))
+        defs: dict[str, int] = {}
+        for m in self.modules.values():
+            for st in ast.walk(m.tree):
+                if isinstance(st, ast.FunctionDef):
+                    defs[st.name] = defs.get(st.name, 0) + 1
+        for m in self.modules.values():
+            m.finish(defs)
 
     # ---- lookups -------------------------------------------------------
     def module(self, name: str) -> Module:
